@@ -121,8 +121,17 @@ func main() {
 			results = append(results, res)
 		}
 		extra := map[string]any{}
+		if boundsProps[p.ID] != nil {
+			br := boundsObligations(w, p)
+			extra["bounds_obligations"] = br.summary
+			results = append(results, br.rule)
+		}
 		if *tier == "thorough" {
 			thorough(w, p, results, extra)
+			if er, ok := extra["__extra_results"].([]*RuleResult); ok {
+				results = append(results, er...)
+				delete(extra, "__extra_results")
+			}
 		}
 		code = report(w, p, results, known, *tier, seed, *evDir, start, extra)
 	}()
